@@ -53,6 +53,22 @@ except BaseException as e:  # noqa
     print("ERR budget %s: %s" % (type(e).__name__, e))
 
 try:
+    kw = mod.kw_user(INTEGER(3), INTEGER(4), STRING("it's"))
+    try:
+        print("DERIVE total_kw %s" % num(kw.total_kw))
+    except BaseException as e:  # noqa
+        print("DERIVE total_kw raise:%s" % type(e).__name__)
+    try:
+        kw.wr_kw()
+        print("RULE wr_kw ok")
+    except AssertionError:
+        print("RULE wr_kw raise")
+    except BaseException as e:  # noqa
+        print("RULE wr_kw error:%s" % type(e).__name__)
+except BaseException as e:  # noqa
+    print("ERR kw_user %s: %s" % (type(e).__name__, e))
+
+try:
     hist = LIST(0, None, BOOLEAN)
     cnts = SET(0, None, INTEGER)
     s = mod.switch(True, None, True, STRING("a"), REAL(1.5), INTEGER(3), REAL(2.0), True, REAL(2.5), mod.t_col.red, hist, cnts, None)
